@@ -685,6 +685,7 @@ fn exec_drop_dead(k: usize) -> R {
         w.objs[me as usize].held.remove(k);
         w.ev(Ev::Rel(me, t));
         w.drop_begin(t);
+        w.stats.dead_drops += 1;
         Ok(h)
     })?;
     let _g = DropGuard;
